@@ -48,8 +48,8 @@ def run(ctx):
         no = vlib.run_lines(exe, [nl], timeout=900, env=dict(os.environ, MALLOC_PERTURB_='165'))[0]; ctx.count((be, bu, 'nomain'))
         nv = ints(no) if not no.startswith('CRASH') and no.strip() else None
         if nv is None or nv[0] != 0:
-            ctx.report('nondeterministic-thread-lifetimes', '%s/%s: after the set-up thread (key generation, reference outputs) has exited, %s on fresh threads while the main thread never ran a transform' % (
-                be, bu, ('%d of %d evaluations differ from the reference' % (nv[0], nv[1])) if nv else 'the evaluation died (%s)' % no[:60]), {'case': nl, 'scenario': 'nomain', 'backend': be, 'build': bu, 'env': 'MALLOC_PERTURB_=165'})
+            ctx.report('nondeterministic-thread-lifetimes', '%s/%s: after the set-up thread (key generation, reference outputs) has exited, %s' % (
+                be, bu, ('%d of %d evaluations (main thread first, then fresh threads; three idle threads hold the recycled stack and thread-local block of the set-up thread) differ from the reference' % (nv[0], nv[1])) if nv else 'the evaluation died (%s)' % no[:60]), {'case': nl, 'scenario': 'nomain', 'backend': be, 'build': bu, 'env': 'MALLOC_PERTURB_=165'})
         elif nv: ctx.evaluations += nv[1]
         # objects of the FFT domain handed from the thread that created them to another one (used by one thread at a time; the key only read)
         hl = 'handover %s %d %d %d' % (spec, 4 if not thorough else 8, 6 if not thorough else 12, ctx.seed + 29)
